@@ -132,6 +132,11 @@ class GateReplacer(Visitor):
         new_parameters = {
             name: self.visit(param) for name, param in gate.parameters.items()
         }
+        # The arguments substituted for this macro's parameters must fit
+        # the gate they are handed on to.
+        for param in gate.gate_def.parameters:
+            if param.name in new_parameters:
+                param.validate(new_parameters[param.name])
         new_gate = GateStatement(gate.gate_def, new_parameters)
         return replace_gate(new_gate, self.macros)
 
@@ -149,6 +154,8 @@ class GateReplacer(Visitor):
         """This happens when the user indexes a qubit register."""
         alias_from = self.visit(qubit.alias_from)
         alias_index = filter_float(self.visit(qubit.alias_index))
+        if not isinstance(alias_from, (Register, Parameter)):
+            raise JaqalError(f"Cannot index {alias_from}: it is not a register")
         return alias_from[alias_index]
 
 
